@@ -1,6 +1,6 @@
 //! C08 / C07 — whole values: authorities, references, and the views of one
 //! value that the library lets callers interchange as map keys.
-use crate::c07::Stream;
+use crate::c07::{Stream, EQ, HASH, ORD};
 use crate::oracle::{comps_of, normalize_list, pct_decode, seg, split_auth, split_path, split_ref, SegList};
 use crate::sym::{as_str, assume, bytes_eq, vec_of, Text};
 use crate::{cover, tables};
@@ -126,46 +126,67 @@ macro_rules! check_pair {
     }};
 }
 
+macro_rules! check_mode {
+    ($mode:expr, $x:expr, $y:expr, $want:expr, $what:literal) => {{
+        let want: Ordering = $want;
+        if $mode == EQ {
+            let eq = *$x == *$y;
+            assert!(eq == (want == Ordering::Equal), concat!("C07: ", $what, " equality differs from equality of the canonical forms"));
+            assert!((*$y == *$x) == eq, concat!("C07: ", $what, " equality is not symmetric"));
+        } else if $mode == ORD {
+            let c = $x.cmp($y);
+            assert!(c == want, concat!("C08: ", $what, " ordering differs from the order of the canonical forms"));
+            assert!($x.partial_cmp($y) == Some(c), concat!("C08: ", $what, " partial_cmp != Some(cmp)"));
+        } else {
+            if want == Ordering::Equal {
+                assert!(Stream::of($x).same(&Stream::of($y)), concat!("C08: equal ", $what, " values feed different data to the hasher"));
+            }
+        }
+    }};
+}
+
 pub const AUTH_REPS: [&[u8]; 8] = [b"h", b"u@h", b"h:1", b"[::]", b"%68", b"", b"@h:", b"u%40@h"];
 
-fn authority_vs_rep<const N: usize, const K: usize>() {
+fn authority_vs_rep<const N: usize, const K: usize, const MODE: u8>() {
     let t = Text::<N>::any();
     let a = t.bytes();
     assume(tables::t_uri_authority_valid_k(a, N));
     let x = unsafe { uri::Authority::new_unchecked(a) };
     let r = AUTH_REPS[K];
     let y = unsafe { uri::Authority::new_unchecked(r) };
-    check_pair!(x, y, authority_order(a, r), "uri::Authority");
-    cover!(*x == *y && a.len() != r.len(), "equal to the representative with a different text");
-    cover!(*x != *y, "different from the representative");
+    let want = authority_order(a, r);
+    check_mode!(MODE, x, y, want, "uri::Authority");
+    cover!(want == Ordering::Equal && a.len() != r.len(), "equal to the representative with a different text");
+    cover!(want != Ordering::Equal, "different from the representative");
 }
 
 // @h prop=C07,C08 tier=quick kind=check timeout=2400 mem=16 bound="uri::Authority <= 6 bytes x representative 'u@h' (both orders)" encodes="PartialEq/Ord/Hash for uri::Authority via AuthorityParts (derived);AuthorityImpl::parts"
 #[cfg_attr(kani, kani::proof)]
 #[cfg_attr(kani, kani::unwind(10))]
 pub fn c08_authority_vs_rep1_n6() {
-    authority_vs_rep::<6, 1>()
+    authority_vs_rep::<6, 1, EQ>()
 }
 
 // @h prop=C07,C08 tier=quick kind=check timeout=2400 mem=16 bound="uri::Authority <= 6 bytes x representative 'h:1' (both orders)" encodes="same as c08_authority_vs_rep1_n6"
 #[cfg_attr(kani, kani::proof)]
 #[cfg_attr(kani, kani::unwind(10))]
 pub fn c08_authority_vs_rep2_n6() {
-    authority_vs_rep::<6, 2>()
+    authority_vs_rep::<6, 2, ORD>()
 }
 
 pub const REF_REPS: [&[u8]; 10] = [b"s:", b"s://h/a?q#f", b"a", b"?", b"#", b"//h", b"s:a/..", b"S:", b"s:/%61", b"//h/"];
 
-fn uriref_vs_rep<const N: usize, const K: usize>() {
+fn uriref_vs_rep<const N: usize, const K: usize, const MODE: u8>() {
     let t = Text::<N>::any();
     let a = t.bytes();
     assume(tables::t_uri_uriref_valid_k(a, N));
     let x = unsafe { UriRef::new_unchecked(a) };
     let r = REF_REPS[K];
     let y = unsafe { UriRef::new_unchecked(r) };
-    check_pair!(x, y, ref_order(a, r), "UriRef");
-    cover!(*x == *y && a.len() != r.len(), "equal to the representative with a different text");
-    cover!(*x != *y, "different from the representative");
+    let want = ref_order(a, r);
+    check_mode!(MODE, x, y, want, "UriRef");
+    cover!(want == Ordering::Equal && a.len() != r.len(), "equal to the representative with a different text");
+    cover!(want != Ordering::Equal, "different from the representative");
 }
 
 // @h prop=C07,C08 tier=quick kind=check timeout=3000 mem=24 bound="UriRef <= 5 bytes x representative 's:a/..' (both orders)" encodes="PartialEq/Ord/Hash for UriRef via UriRefParts (derived);UriRef::parts;Path/Authority/Query/Fragment comparisons"
@@ -174,44 +195,92 @@ fn uriref_vs_rep<const N: usize, const K: usize>() {
 #[cfg_attr(kani, kani::stub(smallvec::SmallVec::try_grow, crate::stubs::sv_try_grow))]
 #[cfg_attr(kani, kani::stub(smallvec::SmallVec::push, crate::stubs::sv_push))]
 pub fn c08_uriref_vs_rep6_n5() {
-    uriref_vs_rep::<5, 6>()
+    uriref_vs_rep::<5, 6, EQ>()
 }
 
 /// Views of ONE value: owned vs borrowed, URI vs the same text as a reference,
 /// URI family vs IRI family.  They must compare equal, order Equal and feed
 /// the hasher identical data (the `Borrow` contract of hashed/ordered maps).
-fn uri_views<const N: usize>() {
+/// One pair of views per harness (every hash re-normalises the path).
+pub const V_URIREF: u8 = 0;
+pub const V_IRI: u8 = 1;
+pub const V_IRIREF: u8 = 2;
+pub const V_BUF: u8 = 3;
+pub const V_CMP: u8 = 4;
+
+fn uri_views<const N: usize, const V: u8>() {
     let t = Text::<N>::any();
     let a = t.bytes();
     assume(tables::t_uri_uri_valid_k(a, N));
     let u = unsafe { Uri::new_unchecked(a) };
-    let r: &UriRef = u.borrow();
-    let i: &Iri = u.borrow();
-    let ir: &IriRef = u.borrow();
-    let hu = Stream::of(u);
-    assert!(hu.same(&Stream::of(r)), "C08: Uri and the same text as UriRef hash differently (Borrow<UriRef> for Uri)");
-    assert!(hu.same(&Stream::of(i)), "C08: Uri and the same text as Iri hash differently (Borrow<Iri> for Uri)");
-    assert!(hu.same(&Stream::of(ir)), "C08: Uri and the same text as IriRef hash differently (Borrow<IriRef> for Uri)");
-    assert!(*u == *r && *r == *u, "C08: Uri != the same text as UriRef");
-    assert!(u.partial_cmp(r) == Some(Ordering::Equal) && r.partial_cmp(u) == Some(Ordering::Equal), "C08: Uri vs UriRef ordering");
-    assert!(*u == *u && u.cmp(u) == Ordering::Equal && r.cmp(r) == Ordering::Equal && i.cmp(i) == Ordering::Equal, "C08: a value is not equal to itself");
-    let b = unsafe { UriBuf::new_unchecked(vec_of(a)) };
-    assert!(hu.same(&Stream::of(&b)), "C08: UriBuf hashes differently from the Uri it borrows as");
-    assert!(b == *u && *u == b && b.partial_cmp(u) == Some(Ordering::Equal), "C08: UriBuf vs Uri");
-    let ub: &Uri = b.borrow();
-    assert!(ub.as_bytes().as_ptr() == b.as_bytes().as_ptr(), "Borrow<Uri> for UriBuf is not a view");
+    if V == V_URIREF {
+        let r: &UriRef = u.borrow();
+        assert!(Stream::of(u).same(&Stream::of(r)), "C08: Uri and the same text as UriRef hash differently (Borrow<UriRef> for Uri)");
+    } else if V == V_IRI {
+        let i: &Iri = u.borrow();
+        assert!(Stream::of(u).same(&Stream::of(i)), "C08: Uri and the same text as Iri hash differently (Borrow<Iri> for Uri)");
+    } else if V == V_IRIREF {
+        let ir: &IriRef = u.borrow();
+        assert!(Stream::of(u).same(&Stream::of(ir)), "C08: Uri and the same text as IriRef hash differently (Borrow<IriRef> for Uri)");
+    } else if V == V_BUF {
+        let b = unsafe { UriBuf::new_unchecked(vec_of(a)) };
+        assert!(Stream::of(u).same(&Stream::of(&b)), "C08: UriBuf hashes differently from the Uri it borrows as");
+        let ub: &Uri = b.borrow();
+        assert!(ub.as_bytes().as_ptr() == b.as_bytes().as_ptr(), "Borrow<Uri> for UriBuf is not a view");
+        forget(b);
+    } else {
+        let r: &UriRef = u.borrow();
+        assert!(*u == *r && *r == *u, "C08: Uri != the same text as UriRef");
+        assert!(u.partial_cmp(r) == Some(Ordering::Equal), "C08: Uri vs UriRef ordering");
+        assert!(u.cmp(u) == Ordering::Equal, "C08: a value does not order Equal to itself");
+    }
     cover!(u.authority().is_some() && u.query().is_some(), "authority and query present");
-    cover!(u.path().segment_count() >= 2, "two or more segments");
-    forget(b);
+    cover!(a.len() == N, "maximal length");
 }
 
-// @h prop=C08 tier=quick kind=check timeout=3000 mem=24 bound="Uri text <= 6 bytes" encodes="Hash/PartialEq/PartialOrd for Uri,UriRef,Iri,IriRef,UriBuf on one text;Borrow impls"
+// @h prop=C08 tier=quick kind=check timeout=3000 mem=24 bound="Uri text <= 5 bytes: hash stream of Uri vs the same text as UriRef" encodes="Hash for Uri and UriRef;Borrow<UriRef> for Uri"
 #[cfg_attr(kani, kani::proof)]
 #[cfg_attr(kani, kani::unwind(10))]
 #[cfg_attr(kani, kani::stub(smallvec::SmallVec::try_grow, crate::stubs::sv_try_grow))]
 #[cfg_attr(kani, kani::stub(smallvec::SmallVec::push, crate::stubs::sv_push))]
-pub fn c08_uri_views_n6() {
-    uri_views::<6>()
+pub fn c08_uri_vs_uriref_hash_n5() {
+    uri_views::<5, V_URIREF>()
+}
+
+// @h prop=C08 tier=thorough kind=check timeout=3000 mem=24 bound="Uri text <= 5 bytes: hash stream of Uri vs the same text as Iri" encodes="Hash for Uri and Iri;Borrow<Iri> for Uri"
+#[cfg_attr(kani, kani::proof)]
+#[cfg_attr(kani, kani::unwind(10))]
+#[cfg_attr(kani, kani::stub(smallvec::SmallVec::try_grow, crate::stubs::sv_try_grow))]
+#[cfg_attr(kani, kani::stub(smallvec::SmallVec::push, crate::stubs::sv_push))]
+pub fn c08_uri_vs_iri_hash_n5() {
+    uri_views::<5, V_IRI>()
+}
+
+// @h prop=C08 tier=thorough kind=check timeout=3000 mem=24 bound="Uri text <= 5 bytes: hash stream of Uri vs the same text as IriRef" encodes="Hash for Uri and IriRef;Borrow<IriRef> for Uri"
+#[cfg_attr(kani, kani::proof)]
+#[cfg_attr(kani, kani::unwind(10))]
+#[cfg_attr(kani, kani::stub(smallvec::SmallVec::try_grow, crate::stubs::sv_try_grow))]
+#[cfg_attr(kani, kani::stub(smallvec::SmallVec::push, crate::stubs::sv_push))]
+pub fn c08_uri_vs_iriref_hash_n5() {
+    uri_views::<5, V_IRIREF>()
+}
+
+// @h prop=C08 tier=quick kind=check timeout=3000 mem=24 bound="Uri text <= 5 bytes: hash stream of UriBuf vs Uri" encodes="derived Hash for UriBuf (forwarding);Borrow<Uri> for UriBuf"
+#[cfg_attr(kani, kani::proof)]
+#[cfg_attr(kani, kani::unwind(10))]
+#[cfg_attr(kani, kani::stub(smallvec::SmallVec::try_grow, crate::stubs::sv_try_grow))]
+#[cfg_attr(kani, kani::stub(smallvec::SmallVec::push, crate::stubs::sv_push))]
+pub fn c08_uribuf_vs_uri_hash_n5() {
+    uri_views::<5, V_BUF>()
+}
+
+// @h prop=C08 tier=thorough kind=check timeout=3000 mem=24 bound="Uri text <= 5 bytes: Uri vs UriRef equality and ordering" encodes="PartialEq<UriRef>/PartialOrd<UriRef> for Uri and converse"
+#[cfg_attr(kani, kani::proof)]
+#[cfg_attr(kani, kani::unwind(10))]
+#[cfg_attr(kani, kani::stub(smallvec::SmallVec::try_grow, crate::stubs::sv_try_grow))]
+#[cfg_attr(kani, kani::stub(smallvec::SmallVec::push, crate::stubs::sv_push))]
+pub fn c08_uri_vs_uriref_cmp_n5() {
+    uri_views::<5, V_CMP>()
 }
 
 fn iri_views<const N: usize>() {
@@ -220,80 +289,73 @@ fn iri_views<const N: usize>() {
     assume(tables::t_iri_iri_valid_k(a, N));
     let u = unsafe { Iri::new_unchecked(as_str(a)) };
     let r: &IriRef = u.borrow();
-    let hu = Stream::of(u);
-    assert!(hu.same(&Stream::of(r)), "C08: Iri and the same text as IriRef hash differently (Borrow<IriRef> for Iri)");
-    assert!(*u == *r && *r == *u, "C08: Iri != the same text as IriRef");
-    assert!(u.partial_cmp(r) == Some(Ordering::Equal), "C08: Iri vs IriRef ordering");
-    let b = unsafe { IriBuf::new_unchecked(String::from_utf8_unchecked(vec_of(a))) };
-    assert!(hu.same(&Stream::of(&b)), "C08: IriBuf hashes differently from the Iri it borrows as");
-    assert!(b == *u && *u == b, "C08: IriBuf vs Iri");
-    cover!(a.len() >= 5 && a[2] >= 0xC2, "non-ASCII text");
-    forget(b);
+    assert!(Stream::of(u).same(&Stream::of(r)), "C08: Iri and the same text as IriRef hash differently (Borrow<IriRef> for Iri)");
+    cover!(a.len() >= 4 && a[2] >= 0xC2, "non-ASCII text");
 }
 
-// @h prop=C08 tier=quick kind=check timeout=3000 mem=24 bound="Iri text <= 6 bytes (UTF-8)" encodes="Hash/PartialEq/PartialOrd for Iri,IriRef,IriBuf on one text;Borrow impls"
+// @h prop=C08 tier=quick kind=check timeout=3000 mem=24 bound="Iri text <= 5 bytes (UTF-8): hash stream of Iri vs the same text as IriRef" encodes="Hash for Iri and IriRef;Borrow<IriRef> for Iri"
 #[cfg_attr(kani, kani::proof)]
 #[cfg_attr(kani, kani::unwind(10))]
 #[cfg_attr(kani, kani::stub(smallvec::SmallVec::try_grow, crate::stubs::sv_try_grow))]
 #[cfg_attr(kani, kani::stub(smallvec::SmallVec::push, crate::stubs::sv_push))]
-pub fn c08_iri_views_n6() {
-    iri_views::<6>()
+pub fn c08_iri_vs_iriref_hash_n5() {
+    iri_views::<5>()
 }
 
 // @h prop=C07,C08 tier=thorough kind=check timeout=3000 mem=20 bound="uri::Authority <= 7 bytes x representative 'h' (both orders)" encodes="same as c08_authority_vs_rep1_n6"
 #[cfg_attr(kani, kani::proof)]
 #[cfg_attr(kani, kani::unwind(10))]
 pub fn c08_authority_vs_rep0_n7() {
-    authority_vs_rep::<7, 0>()
+    authority_vs_rep::<7, 0, EQ>()
 }
 
 // @h prop=C07,C08 tier=thorough kind=check timeout=3000 mem=20 bound="uri::Authority <= 7 bytes x representative 'u@h' (both orders)" encodes="same as c08_authority_vs_rep1_n6"
 #[cfg_attr(kani, kani::proof)]
 #[cfg_attr(kani, kani::unwind(10))]
 pub fn c08_authority_vs_rep1_n7() {
-    authority_vs_rep::<7, 1>()
+    authority_vs_rep::<7, 1, EQ>()
 }
 
 // @h prop=C07,C08 tier=thorough kind=check timeout=3000 mem=20 bound="uri::Authority <= 7 bytes x representative 'h:1' (both orders)" encodes="same as c08_authority_vs_rep1_n6"
 #[cfg_attr(kani, kani::proof)]
 #[cfg_attr(kani, kani::unwind(10))]
 pub fn c08_authority_vs_rep2_n7() {
-    authority_vs_rep::<7, 2>()
+    authority_vs_rep::<7, 2, EQ>()
 }
 
 // @h prop=C07,C08 tier=thorough kind=check timeout=3000 mem=20 bound="uri::Authority <= 7 bytes x representative '[::]' (both orders)" encodes="same as c08_authority_vs_rep1_n6"
 #[cfg_attr(kani, kani::proof)]
 #[cfg_attr(kani, kani::unwind(10))]
 pub fn c08_authority_vs_rep3_n7() {
-    authority_vs_rep::<7, 3>()
+    authority_vs_rep::<7, 3, EQ>()
 }
 
 // @h prop=C07,C08 tier=thorough kind=check timeout=3000 mem=20 bound="uri::Authority <= 7 bytes x representative '%68' (both orders)" encodes="same as c08_authority_vs_rep1_n6"
 #[cfg_attr(kani, kani::proof)]
 #[cfg_attr(kani, kani::unwind(10))]
 pub fn c08_authority_vs_rep4_n7() {
-    authority_vs_rep::<7, 4>()
+    authority_vs_rep::<7, 4, EQ>()
 }
 
 // @h prop=C07,C08 tier=thorough kind=check timeout=3000 mem=20 bound="uri::Authority <= 7 bytes x representative '' (both orders)" encodes="same as c08_authority_vs_rep1_n6"
 #[cfg_attr(kani, kani::proof)]
 #[cfg_attr(kani, kani::unwind(10))]
 pub fn c08_authority_vs_rep5_n7() {
-    authority_vs_rep::<7, 5>()
+    authority_vs_rep::<7, 5, EQ>()
 }
 
 // @h prop=C07,C08 tier=thorough kind=check timeout=3000 mem=20 bound="uri::Authority <= 7 bytes x representative '@h:' (both orders)" encodes="same as c08_authority_vs_rep1_n6"
 #[cfg_attr(kani, kani::proof)]
 #[cfg_attr(kani, kani::unwind(10))]
 pub fn c08_authority_vs_rep6_n7() {
-    authority_vs_rep::<7, 6>()
+    authority_vs_rep::<7, 6, EQ>()
 }
 
 // @h prop=C07,C08 tier=thorough kind=check timeout=3000 mem=20 bound="uri::Authority <= 7 bytes x representative 'u%40@h' (both orders)" encodes="same as c08_authority_vs_rep1_n6"
 #[cfg_attr(kani, kani::proof)]
 #[cfg_attr(kani, kani::unwind(10))]
 pub fn c08_authority_vs_rep7_n7() {
-    authority_vs_rep::<7, 7>()
+    authority_vs_rep::<7, 7, EQ>()
 }
 
 // @h prop=C07,C08 tier=thorough kind=check timeout=5400 mem=26 bound="UriRef <= 6 bytes x representative 's:' (both orders)" encodes="same as c08_uriref_vs_rep6_n5"
@@ -302,7 +364,7 @@ pub fn c08_authority_vs_rep7_n7() {
 #[cfg_attr(kani, kani::stub(smallvec::SmallVec::try_grow, crate::stubs::sv_try_grow))]
 #[cfg_attr(kani, kani::stub(smallvec::SmallVec::push, crate::stubs::sv_push))]
 pub fn c08_uriref_vs_rep0_n6() {
-    uriref_vs_rep::<6, 0>()
+    uriref_vs_rep::<6, 0, EQ>()
 }
 
 // @h prop=C07,C08 tier=thorough kind=check timeout=5400 mem=26 bound="UriRef <= 6 bytes x representative 's://h/a?q#f' (both orders)" encodes="same as c08_uriref_vs_rep6_n5"
@@ -311,7 +373,7 @@ pub fn c08_uriref_vs_rep0_n6() {
 #[cfg_attr(kani, kani::stub(smallvec::SmallVec::try_grow, crate::stubs::sv_try_grow))]
 #[cfg_attr(kani, kani::stub(smallvec::SmallVec::push, crate::stubs::sv_push))]
 pub fn c08_uriref_vs_rep1_n6() {
-    uriref_vs_rep::<6, 1>()
+    uriref_vs_rep::<6, 1, EQ>()
 }
 
 // @h prop=C07,C08 tier=thorough kind=check timeout=5400 mem=26 bound="UriRef <= 6 bytes x representative 'a' (both orders)" encodes="same as c08_uriref_vs_rep6_n5"
@@ -320,7 +382,7 @@ pub fn c08_uriref_vs_rep1_n6() {
 #[cfg_attr(kani, kani::stub(smallvec::SmallVec::try_grow, crate::stubs::sv_try_grow))]
 #[cfg_attr(kani, kani::stub(smallvec::SmallVec::push, crate::stubs::sv_push))]
 pub fn c08_uriref_vs_rep2_n6() {
-    uriref_vs_rep::<6, 2>()
+    uriref_vs_rep::<6, 2, EQ>()
 }
 
 // @h prop=C07,C08 tier=thorough kind=check timeout=5400 mem=26 bound="UriRef <= 6 bytes x representative '?' (both orders)" encodes="same as c08_uriref_vs_rep6_n5"
@@ -329,7 +391,7 @@ pub fn c08_uriref_vs_rep2_n6() {
 #[cfg_attr(kani, kani::stub(smallvec::SmallVec::try_grow, crate::stubs::sv_try_grow))]
 #[cfg_attr(kani, kani::stub(smallvec::SmallVec::push, crate::stubs::sv_push))]
 pub fn c08_uriref_vs_rep3_n6() {
-    uriref_vs_rep::<6, 3>()
+    uriref_vs_rep::<6, 3, EQ>()
 }
 
 // @h prop=C07,C08 tier=thorough kind=check timeout=5400 mem=26 bound="UriRef <= 6 bytes x representative '#' (both orders)" encodes="same as c08_uriref_vs_rep6_n5"
@@ -338,7 +400,7 @@ pub fn c08_uriref_vs_rep3_n6() {
 #[cfg_attr(kani, kani::stub(smallvec::SmallVec::try_grow, crate::stubs::sv_try_grow))]
 #[cfg_attr(kani, kani::stub(smallvec::SmallVec::push, crate::stubs::sv_push))]
 pub fn c08_uriref_vs_rep4_n6() {
-    uriref_vs_rep::<6, 4>()
+    uriref_vs_rep::<6, 4, EQ>()
 }
 
 // @h prop=C07,C08 tier=thorough kind=check timeout=5400 mem=26 bound="UriRef <= 6 bytes x representative '//h' (both orders)" encodes="same as c08_uriref_vs_rep6_n5"
@@ -347,7 +409,7 @@ pub fn c08_uriref_vs_rep4_n6() {
 #[cfg_attr(kani, kani::stub(smallvec::SmallVec::try_grow, crate::stubs::sv_try_grow))]
 #[cfg_attr(kani, kani::stub(smallvec::SmallVec::push, crate::stubs::sv_push))]
 pub fn c08_uriref_vs_rep5_n6() {
-    uriref_vs_rep::<6, 5>()
+    uriref_vs_rep::<6, 5, EQ>()
 }
 
 // @h prop=C07,C08 tier=thorough kind=check timeout=5400 mem=26 bound="UriRef <= 6 bytes x representative 's:a/..' (both orders)" encodes="same as c08_uriref_vs_rep6_n5"
@@ -356,7 +418,7 @@ pub fn c08_uriref_vs_rep5_n6() {
 #[cfg_attr(kani, kani::stub(smallvec::SmallVec::try_grow, crate::stubs::sv_try_grow))]
 #[cfg_attr(kani, kani::stub(smallvec::SmallVec::push, crate::stubs::sv_push))]
 pub fn c08_uriref_vs_rep6_n6() {
-    uriref_vs_rep::<6, 6>()
+    uriref_vs_rep::<6, 6, EQ>()
 }
 
 // @h prop=C07,C08 tier=thorough kind=check timeout=5400 mem=26 bound="UriRef <= 6 bytes x representative 'S:' (both orders)" encodes="same as c08_uriref_vs_rep6_n5"
@@ -365,7 +427,7 @@ pub fn c08_uriref_vs_rep6_n6() {
 #[cfg_attr(kani, kani::stub(smallvec::SmallVec::try_grow, crate::stubs::sv_try_grow))]
 #[cfg_attr(kani, kani::stub(smallvec::SmallVec::push, crate::stubs::sv_push))]
 pub fn c08_uriref_vs_rep7_n6() {
-    uriref_vs_rep::<6, 7>()
+    uriref_vs_rep::<6, 7, EQ>()
 }
 
 // @h prop=C07,C08 tier=thorough kind=check timeout=5400 mem=26 bound="UriRef <= 6 bytes x representative 's:/%61' (both orders)" encodes="same as c08_uriref_vs_rep6_n5"
@@ -374,7 +436,7 @@ pub fn c08_uriref_vs_rep7_n6() {
 #[cfg_attr(kani, kani::stub(smallvec::SmallVec::try_grow, crate::stubs::sv_try_grow))]
 #[cfg_attr(kani, kani::stub(smallvec::SmallVec::push, crate::stubs::sv_push))]
 pub fn c08_uriref_vs_rep8_n6() {
-    uriref_vs_rep::<6, 8>()
+    uriref_vs_rep::<6, 8, EQ>()
 }
 
 // @h prop=C07,C08 tier=thorough kind=check timeout=5400 mem=26 bound="UriRef <= 6 bytes x representative '//h/' (both orders)" encodes="same as c08_uriref_vs_rep6_n5"
@@ -383,5 +445,5 @@ pub fn c08_uriref_vs_rep8_n6() {
 #[cfg_attr(kani, kani::stub(smallvec::SmallVec::try_grow, crate::stubs::sv_try_grow))]
 #[cfg_attr(kani, kani::stub(smallvec::SmallVec::push, crate::stubs::sv_push))]
 pub fn c08_uriref_vs_rep9_n6() {
-    uriref_vs_rep::<6, 9>()
+    uriref_vs_rep::<6, 9, EQ>()
 }
